@@ -219,7 +219,8 @@ def rand_case(rng):
             tag += "+pre-noncand"
         else:
             tag += ("+pre-ok" if all_good else "+pre-other") + str(len(pre))
-    return {"op": "C17.match", "tag": tag, "tmpl": t, "target": e, "cands": cands, "pre": pre}
+    return {"op": "C17.match", "tag": tag, "tmpl": t, "target": e, "cands": cands, "pre": pre,
+            "kw_rev": rng.random() < 0.5}
 
 
 def cases(rng, tier):
@@ -235,6 +236,17 @@ def cases(rng, tier):
         for e in es:
             for cands in (["f", "x", "y"], ["x"], ["x", "y"]):
                 yield {"op": "C17.match", "tag": "exh", "tmpl": t, "target": e, "cands": cands, "pre": None}
+    # calls whose keyword arguments are WRITTEN in different orders in template and target
+    for kws in (["k", "m"], ["k", "m", "n"]):
+        for _ in range(12):
+            tv = rng.sample(TV, len(kws))
+            vals = [rand_expr(rng, rng.randint(0, 1), EV, EF, rich=False) for _ in kws]
+            tm = ["call", "f", [V("a")], [[k, V(v)] for k, v in zip(kws, tv)]]
+            tg = ["call", "f", [V("a")], [[k, e] for k, e in zip(kws, vals)]]
+            if rng.random() < 0.5:
+                tm, tg = ["+", [tm, V("b")]], ["+", [V("b"), tg]]
+            yield {"op": "C17.match", "tag": "kw-written-order", "tmpl": tm, "target": tg, "cands": sorted(tv), "pre": None,
+                   "kw_rev": True}
     for _ in range(3000 if tier == "quick" else 40000):
         yield rand_case(rng)
 
@@ -245,9 +257,24 @@ def exhaustive(tier):
 
 # ---------------------------------------------------------------- the real code
 
+def reverse_kwargs(expr):
+    """the same expression with the keyword arguments of every call WRITTEN in the opposite order (a dict keeps
+    insertion order; which keyword comes first must not matter to the unifier)"""
+    from pymbolic.mapper import IdentityMapper
+    from pymbolic.primitives import CallWithKwargs
+
+    class M(IdentityMapper):
+        def map_call_with_kwargs(self, ex):
+            kw = [(k, self.rec(v)) for k, v in ex.kw_parameters.items()]
+            return CallWithKwargs(self.rec(ex.function), tuple(self.rec(p) for p in ex.parameters), dict(reversed(kw)))
+    return M()(expr)
+
+
 def real_inputs(case):
     t = ser.from_js(case["tmpl"])
     e = ser.from_js(case["target"])
+    if case.get("kw_rev"):
+        e = reverse_kwargs(e)
     pre = None
     if case.get("pre") is not None:
         pre = {n: ser.from_js(x) for n, x in case["pre"]}
